@@ -440,6 +440,31 @@ def r02_5(chk, sg, decoded, fidx):
     fn = getattr(ev, "fn", None) or sg.func("SpaceGroup.__init__")      # the tree that was evaluated (new helpers expanded)
     forelse = [n for n in ast.walk(fn) if isinstance(n, ast.For) and n.orelse and any(isinstance(s, ast.Raise) for s in n.orelse)]
     chk.ob("R02.5", SG, "SpaceGroup.__init__", "an unknown choice raises (for ... else: raise)", bool(forelse))
+    # a cache of decoded rows must separate the rows: its key, evaluated on every table row, may coincide only for rows with the same operations
+    from .. import memo as MEMO
+    from ..concrete import concrete, NotConcrete
+    for cname, entries in MEMO.module_caches(sg).items():
+        for cq, ckey, ce in entries:
+            fields = {a[2] for a in find_atoms(ckey, lambda a: a[0] == "attr" and a[2] in fidx)}
+            owners = {a[1].key() for a in find_atoms(ckey, lambda a: a[0] == "attr" and a[2] in fidx)}
+            if not fields or len(owners) != 1:
+                continue
+            owner = next(iter(owners))
+            seen, clash = {}, None
+            try:
+                for rk, r in decoded:
+                    val = concrete(ckey, {f"{owner}.{f}": r[fidx[f]] for f in fidx})
+                    val = tuple(val) if isinstance(val, list) else val
+                    ops_ = tuple(r[fidx["symops"]])
+                    if val in seen and seen[val][1] != ops_:
+                        clash = (seen[val][0], rk, val)
+                        break
+                    seen.setdefault(val, (rk, ops_))
+            except (NotConcrete, TypeError):
+                continue
+            chk.ob("R02.5", SG, cq, f"the cache {cname} of table-derived data separates the settings: its key is different for rows with different operations",
+                   clash is None, node=ce.node, fingerprint=f"row-cache:{cname}", expected="a key that identifies the row (number and choice, or the operation codes)",
+                   found=f"settings {clash[0]} and {clash[1]} share the key {clash[2]!r}" if clash else None)
     ops = [e for e in ev.events if e.kind == "store" and e.target.key() == "self.symmetry_operations"]
     chk.ob("R02.5", SG, "SpaceGroup.__init__", "operations are decoded from the selected row's codes",
            bool(ops) and "from_integer_code" in ops[0].value.key() and ".symops" in ops[0].value.key(),
